@@ -438,6 +438,72 @@ theorem fixUnderflow_ok {B : Nat} (hB : 2 ≤ B) {h : Nat} (p : Inner (Node h)) 
       · rw [if_pos h3]; exact mergeAt_ok p (i - 1) lo hi hp
       · rw [if_neg h3]; exact mergeAt_ok p i lo hi hp
 
+/-- the parent after `setChild` + `childSizes[i]--`, before any underflow repair. -/
+def innerN1 {h : Nat} (n : Inner (Node h)) (i : Nat) (r : RemRes (Node h)) : Inner (Node h) :=
+  ⟨n.keys, n.kids.set i r.node, n.sizes.set i (n.sizes.getD i 0 - 1)⟩
+
+theorem innerAfterRemove_nounder {B h : Nat} (n : Inner (Node h)) (i : Nat) {r : RemRes (Node h)}
+    (hu : r.underflow = false) :
+    innerAfterRemove B n i r = ⟨innerN1 n i r, true, r.old, false⟩ := by
+  simp [innerAfterRemove, innerN1, hu]
+
+theorem innerAfterRemove_under {B h : Nat} (n : Inner (Node h)) (i : Nat) {r : RemRes (Node h)}
+    (hu : r.underflow = true) :
+    innerAfterRemove B n i r =
+      ⟨(fixUnderflow B (innerN1 n i r) i).1, true, r.old,
+        (fixUnderflow B (innerN1 n i r) i).2 &&
+          decide ((fixUnderflow B (innerN1 n i r) i).1.keys.length + 1 < minKeys B)⟩ := by
+  simp [innerAfterRemove, innerN1, hu]
+
+theorem nodeRemove_succ_found {B h : Nat} {n : Inner (Node h)} {key : Key} {c : Node h}
+    (hc : n.kids[searchInner n.keys key]? = some c) (hf : (nodeRemove B h c key).found = true) :
+    nodeRemove B (h + 1) n key = innerAfterRemove B n (searchInner n.keys key) (nodeRemove B h c key) := by
+  simp [nodeRemove, hc, hf] <;> rfl
+
+theorem nodeRemove_succ_notfound {B h : Nat} {n : Inner (Node h)} {key : Key} {c : Node h}
+    (hc : n.kids[searchInner n.keys key]? = some c) (hf : (nodeRemove B h c key).found = false) :
+    nodeRemove B (h + 1) n key = ⟨n, false, [], false⟩ := by
+  simp [nodeRemove, hc, hf] <;> rfl
+
+theorem innerN1_ok {h : Nat} {K1 K2 : List Key} {C1 C2 : List (Node h)}
+    {c : Node h} {sizes : List Nat} {lo hi : Option Key} {key : Key} {i : Nat} {r : RemRes (Node h)}
+    (hpre : Pre (Ord h) K1 C1 lo) (hpost : Post (Ord h) K2 C2 hi)
+    (hK1 : ∀ x ∈ K1, x ≤ key) (hK2 : ∀ x ∈ K2, key < x)
+    (hc : Ord h c (lastOr lo K1) (headOr hi K2))
+    (hr : RemOk h c r (lastOr lo K1) (headOr hi K2) key) (hfound : r.found = true)
+    (hCi : C1.length = i) (hKi : K1.length = i)
+    (hsz : sizes = (C1 ++ c :: C2).map (nodeSize h)) :
+    Ord (h + 1) (innerN1 (⟨K1 ++ K2, C1 ++ c :: C2, sizes⟩ : Inner (Node h)) i r) lo hi ∧
+    abs (h + 1) (innerN1 (⟨K1 ++ K2, C1 ++ c :: C2, sizes⟩ : Inner (Node h)) i r) =
+      OMap.del (abs (h + 1) (⟨K1 ++ K2, C1 ++ c :: C2, sizes⟩ : Inner (Node h))) key ∧
+    OMap.get (abs (h + 1) (⟨K1 ++ K2, C1 ++ c :: C2, sizes⟩ : Inner (Node h))) key = some r.old := by
+  have hCK : C1.length = K1.length := by omega
+  have hlt := pre_lt hpre hK1
+  have hgt := post_gt hpost hK2
+  simp only [RemOk, hfound, if_true] at hr
+  obtain ⟨hget, hord, habsr⟩ := hr
+  have hM1 : (C1.map (nodeSize h)).length = i := by simpa using hCi
+  refine ⟨⟨?_, ?_⟩, ?_, ?_⟩
+  · show Chain (Ord h) (K1 ++ K2) ((C1 ++ c :: C2).set i r.node) lo hi
+    rw [set_mid hCi]
+    exact (chain_focus hCK).2 ⟨hpre, hord, hpost⟩
+  · show sizes.set i (sizes.getD i 0 - 1) = ((C1 ++ c :: C2).set i r.node).map (nodeSize h)
+    rw [set_mid hCi, map_sizes_mid, hsz, map_sizes_mid, List.getD_eq_getElem?_getD,
+      getElem?_mid hM1, set_mid hM1]
+    have : nodeSize h r.node = nodeSize h c - 1 := by
+      rw [hord.size_eq, habsr, odel_length hc.sorted, hget, hc.size_eq]; rfl
+    rw [this]; rfl
+  · rw [abs_succ, abs_succ]
+    show flat h ((C1 ++ c :: C2).set i r.node) = OMap.del (flat h (C1 ++ c :: C2)) key
+    rw [set_mid hCi]
+    simp only [flat_append, flat_cons]
+    rw [odel_append, odel_append, odel_all_ne (fun x hx => Lex.ne_of_lt (hlt x hx)),
+      odel_all_ne (fun x hx => (Lex.ne_of_lt (hgt x hx)).symm), habsr]
+  · rw [abs_succ]
+    show OMap.get (flat h (C1 ++ c :: C2)) key = _
+    simp only [flat_append, flat_cons]
+    rw [oget_append_lt hlt, oget_append_gt hgt, hget]
+
 theorem innerAfterRemove_ok {B : Nat} (hB : 2 ≤ B) {h : Nat} {K1 K2 : List Key} {C1 C2 : List (Node h)}
     {c : Node h} {sizes : List Nat} {lo hi : Option Key} {key : Key} {i : Nat} {r : RemRes (Node h)}
     (hpre : Pre (Ord h) K1 C1 lo) (hpost : Post (Ord h) K2 C2 hi)
@@ -448,44 +514,12 @@ theorem innerAfterRemove_ok {B : Nat} (hB : 2 ≤ B) {h : Nat} {K1 K2 : List Key
     (hsz : sizes = (C1 ++ c :: C2).map (nodeSize h)) :
     RemOk (h + 1) (⟨K1 ++ K2, C1 ++ c :: C2, sizes⟩ : Inner (Node h))
       (innerAfterRemove B (⟨K1 ++ K2, C1 ++ c :: C2, sizes⟩ : Inner (Node h)) i r) lo hi key := by
-  have hCK : C1.length = K1.length := by omega
-  have hlt := pre_lt hpre hK1
-  have hgt := post_gt hpost hK2
-  simp only [RemOk, hfound, if_true] at hr
-  obtain ⟨hget, hord, habsr⟩ := hr
-  have hM1 : (C1.map (nodeSize h)).length = i := by simpa using hCi
-  -- the node after replacing the child and decrementing its cached size
-  have hn1 : Ord (h + 1) (⟨K1 ++ K2, (C1 ++ c :: C2).set i r.node,
-      sizes.set i (sizes.getD i 0 - 1)⟩ : Inner (Node h)) lo hi := by
-    refine ⟨?_, ?_⟩
-    · show Chain (Ord h) (K1 ++ K2) ((C1 ++ c :: C2).set i r.node) lo hi
-      rw [set_mid hCi]
-      exact (chain_focus hCK).2 ⟨hpre, hord, hpost⟩
-    · show sizes.set i (sizes.getD i 0 - 1) = ((C1 ++ c :: C2).set i r.node).map (nodeSize h)
-      rw [set_mid hCi, map_sizes_mid, hsz, map_sizes_mid, List.getD_eq_getElem?_getD,
-        getElem?_mid hM1, set_mid hM1]
-      have : nodeSize h r.node = nodeSize h c - 1 := by
-        rw [hord.size_eq, habsr, odel_length hc.sorted, hget, hc.size_eq]; rfl
-      rw [this]; rfl
-  have habs1 : abs (h + 1) (⟨K1 ++ K2, (C1 ++ c :: C2).set i r.node,
-      sizes.set i (sizes.getD i 0 - 1)⟩ : Inner (Node h)) =
-      OMap.del (abs (h + 1) (⟨K1 ++ K2, C1 ++ c :: C2, sizes⟩ : Inner (Node h))) key := by
-    rw [abs_succ, abs_succ]
-    show flat h ((C1 ++ c :: C2).set i r.node) = OMap.del (flat h (C1 ++ c :: C2)) key
-    rw [set_mid hCi]
-    simp only [flat_append, flat_cons]
-    rw [odel_append, odel_append, odel_all_ne (fun x hx => Lex.ne_of_lt (hlt x hx)),
-      odel_all_ne (fun x hx => (Lex.ne_of_lt (hgt x hx)).symm), habsr]
-  have hget1 : OMap.get (abs (h + 1) (⟨K1 ++ K2, C1 ++ c :: C2, sizes⟩ : Inner (Node h))) key =
-      some r.old := by
-    rw [abs_succ]
-    show OMap.get (flat h (C1 ++ c :: C2)) key = _
-    simp only [flat_append, flat_cons]
-    rw [oget_append_lt hlt, oget_append_gt hgt, hget]
+  obtain ⟨hn1, habs1, hget1⟩ := innerN1_ok hpre hpost hK1 hK2 hc hr hfound hCi hKi hsz
   unfold RemOk innerAfterRemove
   by_cases hu : r.underflow = true
   · simp only [hu, Bool.not_true, Bool.false_eq_true, if_false]
     obtain ⟨o1, o2⟩ := fixUnderflow_ok hB _ i lo hi hn1
+    simp only [innerN1] at o1 o2
     generalize fixUnderflow B _ i = res at o1 o2
     obtain ⟨n2, merged⟩ := res
     simp only at o1 o2 ⊢
